@@ -736,9 +736,12 @@ fn rename_objects(merge_module: &mut Module, rename_table: &HashMap<String, Stri
                 }
             }
         }
-        // MODULE.VARIANT_CODING.VAR_CHARACTERISTIC
-        for var_characteristic in &mut variant_coding.var_characteristic {
-            rename_item_list(&mut var_characteristic.criterion_name_list, rename_table);
+        // MODULE.VARIANT_CODING.VAR_CHARACTERISTIC: the name is the name of a CHARACTERISTIC or AXIS_PTS
+        // (the list behind it names VAR_CRITERIONs, which are never renamed)
+        for idx in 0..variant_coding.var_characteristic.len() {
+            if let Some(newname) = rename_table.get(&variant_coding.var_characteristic[idx].name) {
+                variant_coding.var_characteristic.rename_item(idx, newname);
+            }
         }
     }
 }
